@@ -97,6 +97,28 @@ OPT_STREAM = {
     ],
 }
 
+COMP_STREAM = {
+    "name": "comp",
+    "quick": {"cases": 500, "args": ["--maxvars=5"]},
+    "thorough": {"cases": 20000, "args": ["--maxvars=8"]},
+    "shrink_levels": [
+        {"cases": 1000, "args": ["--maxvars=1"]},
+        {"cases": 1000, "args": ["--maxvars=2"]},
+        {"cases": 1000, "args": ["--maxvars=3"]},
+    ],
+}
+
+TD_STREAM = {
+    "name": "td",
+    "quick": {"cases": 320, "args": ["--maxvars=5"]},
+    "thorough": {"cases": 8000, "args": ["--maxvars=7"]},
+    "shrink_levels": [
+        {"cases": 800, "args": ["--maxvars=2"]},
+        {"cases": 800, "args": ["--maxvars=3"]},
+        {"cases": 600, "args": ["--maxvars=4"]},
+    ],
+}
+
 BDD_RULE = ("operation programs over RobddBuilder (random/linear/reversed orders, AllIteTable or LruIteTable with hooked "
             "capacity 2^0..2^3, hooked unique-table capacity 4..16 so the table grows repeatedly); a case is non-trivial when "
             "at least one result has a node whose child is a node; distinct = distinct program text")
@@ -228,5 +250,45 @@ PROPS = {
                       "isPrime_spec, numVars_spec).",
         "level_note": "Trusted: Lean kernel; allowed axioms; harness+driver. segment_tree and petgraph are modelled. VTreeIndex has no public constructor: pairs are those reachable via var_index and lca (all nodes).",
         "explanation": "C14.* theorems; ord stream: implementation vs spec (set-theoretic definitions, root paths) and vs the mirrored model.",
+    },
+    "C05": {
+        "modules": ["RsddModel.Props.C05Bdd", "RsddModel.Props.C03"],
+        "streams": [COMP_STREAM],
+        "rule": "CNFs (empty formula, empty/unit clauses, repeated and complementary literals, unused indices), random partial assignments over all "
+                "variables, random expression trees over all seven constructors (depth <= 4), dtree plans for random elimination orders; BDD builder "
+                "under a random order, SDD builder under a random vtree and under the dtree-derived vtree; non-trivial = the CNF or the expression "
+                "compiles to a diagram with a node below a node",
+        "trusted": ["modelled not verified: the clause sort of compile_cnf uses a comparator that is not a total order (the theorem holds for every permutation); "
+                    "BinaryHeap merge order of compile_cnf_with_assignments (the theorem holds for every merge strategy)",
+                    "SDD half: compile functions are compositions of the SDD operations proved correct in C03; the SDD compile_cnf/expr/plan results are "
+                    "checked against the input text by the comp stream (no separate SDD compile theorem yet)"],
+        "assumptions": ["labels are below the order length (the Rust panics otherwise)"],
+        "level_text": "Kernel-checked (BDD builder, every injective level map, every lawful cache): compile_cnf of any permutation of the clauses denotes "
+                      "the CNF (compileCnf_correct; empty formula, empty clauses, units, repeated/complementary literals included), compiling under a "
+                      "partial assignment denotes the restricted CNF for every merge strategy and is the SAME diagram as compile-then-condition "
+                      "(compileWithAssign_eq_condition, via canonicity), expressions and plans compile to their semantics, the plan of a dtree is "
+                      "the conjunction of its leaf clauses (planFromDtree_sem, compileDtree_eq_compileCnf). SDD operations used by the SDD compile "
+                      "functions are correct by C03's theorems.",
+        "level_note": "Trusted: Lean kernel; allowed axioms; harness+driver. The SDD compile drivers (compile_cnf/compile_logical_expr/compile_plan over "
+                      "SddBuilder) are validated by correspondence against the input text; their building blocks are proved in C03.",
+        "explanation": "C05Bdd.* theorems; comp stream: implementation vs truth table of the input text, vs the mirrored compile functions (exact diagrams).",
+    },
+    "C06": {
+        "modules": ["RsddModel.Props.C06"],
+        "streams": [TD_STREAM],
+        "rule": "CNFs as in C05 x a random permutation of the variables as decision order x {standard, semantic(U64_LARGEST)} store; for every "
+                "(variable, value) the result and its negation are conditioned; non-trivial = result has a node below a node",
+        "trusted": ["theorems are about the compiler over an abstract solver satisfying SolverSpec + HashSound + FreeDecide (proved for the reference "
+                    "solver NaiveSolver; for the mirrored real propagator they rest on C09 and on the hash not wrapping); the mirrored compiler run on the "
+                    "mirrored propagator is compared node-for-node with the real compiler",
+                    "semantic store: correct under CollisionFree (unconditionally false by pigeonhole)"],
+        "assumptions": ["component-cache keys determine the residual formula (HashSound)", "no hash collision among requested nodes (semantic store)"],
+        "level_text": "Kernel-checked: for every solver meeting the stated contract and every order enumerating the CNF's variables the compiled diagram "
+                      "denotes the CNF, decides no variable twice on a path and is the false constant iff the CNF is unsatisfiable "
+                      "(topdownH_correct, compileTopdown_correct; unconditional for the reference solver: naiveCompile_correct); conditioning a free "
+                      "diagram or its negation yields the restricted function (cond_correct_dnnf); negative theorems for the pinned cond_helper and "
+                      "root chain (condOrig_wrong, compileTopdownOrig_not_false).",
+        "level_note": "Trusted: Lean kernel; allowed axioms; harness+driver. Conditional on the solver contract (HashSound is inherently conditional: wrapping_mul); semantic store under CollisionFree.",
+        "explanation": "C06.* theorems; td stream: implementation vs brute force (models, is_false, once-per-path, all conditionings), vs mirrored compiler on mirrored propagator.",
     },
 }
